@@ -181,6 +181,19 @@ let spec input obs =
   match (match split_on '|' obs with [a; b; c; d] -> [a; b; c; d; ""] | l -> l) with
   | [outs; tips; rows_s; evs; cas] ->
     let rows = parse_rows rows_s in
+    (* the reader's views (realised observations carried in the case line): one LONGEST_CHAIN header per height
+       from 0 up, each the child of the one below *)
+    let bad_view = Stdlib.List.find_opt (fun v ->
+        if v = "E" then true else
+          let ents = Stdlib.List.filter_map (fun e -> match split_on '.' e with
+              | [h; i; p] -> Some (int_of_string h, i, p) | _ -> None) (if v = "" then [] else split_on ',' v) in
+          let ents = Stdlib.List.sort compare ents in
+          let rec ok expect prev_id = function
+            | [] -> expect > 0
+            | (h, i, p) :: rest -> h = expect && (h = 0 || p = prev_id) && ok (expect + 1) i rest in
+          not (ok 0 "" ents))
+        (Stdlib.List.concat_map (fun x -> if starts "views:" x then split_on '/' (after "views:" x) else []) sc.h.extras) in
+    if bad_view <> None then "FAIL reader-saw-invalid-chain " ^ (match bad_view with Some v -> v | None -> "") else
     let want_ca = Stdlib.String.concat "," (ca_expected sc) in
     if cas <> want_ca then Printf.sprintf "FAIL reader-common-ancestor-wrong got %s want %s" cas want_ca else
     let ev_bad = Stdlib.List.filter (fun e -> match split_on '=' e with
